@@ -28,23 +28,22 @@
    goroutine consumes an event before each sequence.  The statements compose with the parser
    model of C02 to raw child bytes ([C05_bytes_*]).  Drawing: every SetCell of Draw and
    the cursor it shows lie inside the window, whose size Draw makes the terminal's size
-   ([C05_draw_inside]).  Draw into a host window of ANY size (at least one cell) and position
-   - a chain of windows with arbitrary offsets and sizes, clipped by or overhanging its
-   ancestors and the screen (model/TermDraw.v: Window.SetCell level by level down to
-   screen.setCell, Window.ShowCursor which clips nothing, Draw's own Resize) - never panics,
-   leaves the terminal well formed at the window's size, makes no SetCell call outside the
-   window, changes no cell of the host screen outside the visible part of the window (inside
-   the window, every ancestor and the screen), and hands the host a cursor position inside
-   the window's rectangle - inside its visible part when every window of the chain lies
-   inside its parent ([C05_draw_window_inside]).  The predicate the draw stream evaluates on
-   the observation alone ([wdraw_holds]: Draw returned, every changed host cell in the
-   visible part of the window, cursor in the window's rectangle, terminal afterwards of the
-   window's size and satisfying the state predicate) is sound for the model
+   ([C05_draw_inside]).  Draw into a host window of ANY size and position - a chain of
+   windows with arbitrary offsets and sizes, clipped by or overhanging its ancestors and the
+   screen, with or without a cell (model/TermDraw.v: Window.SetCell level by level down to
+   screen.setCell, Window.ShowCursor which clips nothing, Draw's test for a window without a
+   cell and its own Resize) - never panics, leaves the terminal well formed (at the window's
+   size; untouched if the window has no cell), makes no SetCell call outside the window,
+   changes no cell of the host screen outside the visible part of the window (inside the
+   window, every ancestor and the screen), and hands the host a cursor position inside the
+   window's rectangle - inside its visible part when every window of the chain lies inside
+   its parent ([C05_draw_window_inside]).  The predicate the draw stream evaluates on the
+   observation alone ([wdraw_holds]: Draw returned, every changed host cell in the visible
+   part of the window, cursor in the window's rectangle, terminal afterwards satisfying the
+   state predicate, of the window's size if that has a cell) is sound for the model
    ([C05_agreeing_draw_holds]): a Draw the model reproduces (terminal state, every changed
-   host cell, the cursor) satisfies it.  Windows without a cell (size <= 0) are outside the
-   guard [win_ok], and the guard is needed: [C05_draw_empty_window_refuted] (Draw panics in
-   resize, or returns with a cursor outside the window and a terminal of width 0 whose next
-   print panics; proposed finding draw-empty-window, stream class [c05_wdraw_known]).
+   host cell, the cursor) satisfies it.  [C05_draw_empty_window_refuted] records what Draw did
+   to windows without a cell before the repair ccf375f ([draw_win_unfixed]).
    The decidable statement of the property on one observed history ([hist_holds]: after every
    step outcome ok, cursor inside, margins ordered and inside, every row of both grids of the
    terminal's width, at most two events pending) is sound for the model
@@ -101,15 +100,18 @@ Theorem C05_draw_inside : forall e w h t, WFs0 e w h t ->
 Proof. exact draw_inside. Qed.
 Print Assumptions C05_draw_inside.
 
-(* draw_inside for a host window of any position and any size >= 1x1: [l :: ps] is the chain
-   of windows (innermost first, arbitrary offsets and sizes of the ancestors), [sc] the screen
-   size.  Draw does not panic, resizes the terminal to the window, calls SetCell only inside
-   the window; what reaches the screen lies in the visible part of the window; the cursor
-   handed to the host lies in the window's rectangle and, for a nested chain, in its visible part *)
+(* draw_inside for a host window of ANY position and size: [l :: ps] is the chain of windows
+   (innermost first, arbitrary offsets and sizes, the innermost included), [sc] the screen
+   size.  Draw does not panic; if the window has a cell it resizes the terminal to the window,
+   if it has none it leaves the terminal alone, calls nothing and shows no cursor; SetCell is
+   called only inside the window; what reaches the screen lies in the visible part of the
+   window; the cursor handed to the host lies in the window's rectangle and, for a nested
+   chain, in its visible part *)
 Theorem C05_draw_window_inside : forall e w h t l ps sc foc,
-  WFs0 e w h t -> win_ok (l :: ps) = true ->
-  exists t' calls cur, draw_win t (wl_w l) (wl_h l) foc = TOk (t', calls, cur) /\
-    WFs0 e (wl_w l) (wl_h l) t' /\
+  WFs0 e w h t ->
+  exists t' calls cur w' h', draw_win t (wl_w l) (wl_h l) foc = TOk (t', calls, cur) /\
+    WFs0 e w' h' t' /\
+    (if win_ok (l :: ps) then w' = wl_w l /\ h' = wl_h l else t' = t /\ calls = [] /\ cur = None) /\
     (forall c r x, In (c, r, x) calls -> 0 <= c < wl_w l /\ 0 <= r < wl_h l) /\
     (forall x y x0, In (x, y, x0) (host_writes (l :: ps) sc calls) -> in_clip (l :: ps) sc x y = true) /\
     (forall c r, cur = Some (c, r) ->
@@ -131,7 +133,6 @@ Print Assumptions C05_draw_outside_untouched.
    [wdraw_model_ok] fails): no mismatch implies no violation *)
 Theorem C05_agreeing_draw_holds : forall (w h : Z) (o0 : obs) (rest : hist_case) sc ch foc ob,
   1 <= w -> 1 <= h -> Forall hstep_ok (map fst rest) -> stall_free (map fst rest) = true ->
-  win_ok ch = true ->
   wdraw_model_ok ((HResize w h, o0) :: rest, (sc, ch, foc), ob) = true ->
   wdraw_holds ((HResize w h, o0) :: rest, (sc, ch, foc), ob) = true.
 Proof. exact wdraw_agreeing_holds. Qed.
@@ -140,7 +141,8 @@ Print Assumptions C05_agreeing_draw_holds.
 (* non-vacuity: a 2x1 terminal that printed "a" (the resize does not re-print the cursor row) drawn into a 3x2 window at (-1, 1) of a 4x3 window at
    (2, 1) of the 6x4 screen: Draw resizes to 3x2, the window's first column is clipped by its
    parent, the cursor (window column 0) is shown at screen column 1 - inside the window's
-   rectangle, outside its parent; the model agrees with this observation and it holds *)
+   rectangle, outside its parent; the model agrees with this observation and it holds; and the
+   same terminal drawn into the window New(7, 1, ..) of the screen (Width -1): nothing happens *)
 Example C05_agreeing_draw_example :
   let o := fun rows cols row col => mkObs 0 rows cols row col false 0 (rows - 1) 0 (cols - 1) 0
                                           (zrepeat cols rows) (zrepeat cols rows) None in
@@ -148,28 +150,33 @@ Example C05_agreeing_draw_example :
   let ch := [mkWl (-1) 1 3 2; mkWl 2 1 4 3; mkWl 0 0 6 4] in
   let sp := ([32], 0, style0) in
   let ob := (0, o 2 3 0 0, (true, 1, 2), [(2, 2, sp); (3, 2, sp); (2, 3, sp); (3, 3, sp)]) in
+  let ch0 := [mkWl 7 1 (-1) 2; mkWl 0 0 6 4] in
+  let ob0 := (0, o 1 2 0 1, (false, 0, 0), []) in
   Forall hstep_ok (map fst rest) /\ stall_free (map fst rest) = true /\ win_ok ch = true /\
   chain_nested ch (6, 4) = false /\
   wdraw_model_ok ((HResize 2 1, o 1 2 0 0) :: rest, ((6, 4), ch, true), ob) = true /\
-  wdraw_holds ((HResize 2 1, o 1 2 0 0) :: rest, ((6, 4), ch, true), ob) = true.
+  wdraw_holds ((HResize 2 1, o 1 2 0 0) :: rest, ((6, 4), ch, true), ob) = true /\
+  win_ok ch0 = false /\
+  wdraw_model_ok ((HResize 2 1, o 1 2 0 0) :: rest, ((6, 4), ch0, true), ob0) = true /\
+  wdraw_holds ((HResize 2 1, o 1 2 0 0) :: rest, ((6, 4), ch0, true), ob0) = true.
 Proof.
   cbv zeta. split; [|repeat split; vm_compute; reflexivity].
   repeat (apply Forall_cons || apply Forall_nil); cbn; lia.
 Qed.
 
-(* the guard [win_ok] cannot be dropped (proposed finding draw-empty-window, confirmed on the
-   implementation): on a 4x3 terminal showing two lines, Draw into the window Window.New returns
-   for an offset beyond its parent's right edge (Width = -6) panics, as it does for Width = 0
-   (offset at the edge); with the cursor still on row 0, Draw into the Width = 0 window
-   returns, hands the host a cursor outside the (empty) window and leaves a terminal of width 0
-   on which the next printed glyph panics *)
+(* what the test for a window without a cell in Draw (commit ccf375f) prevents: without it
+   ([draw_win_unfixed]), on a 4x3 terminal showing two lines, Draw into the window Window.New
+   returns for an offset beyond its parent's right edge (Width = -6) panics, as it does for
+   Width = 0 (offset at the edge) and Height = 0; with the cursor still on row 0, Draw into the
+   Width = 0 window returns, hands the host a cursor outside the (empty) window and leaves a
+   terminal of width 0 on which the next printed glyph panics *)
 Theorem C05_draw_empty_window_refuted :
   let hs := [HFeed true (TPrint [97] 1); HFeed true (TC0 13); HFeed true (TC0 10); HFeed true (TPrint [98] 1)] in
   Forall hstep_ok hs /\ stall_free hs = true /\
   (exists t, run term_new (HResize 4 3 :: hs) = TOk t /\
-     draw_win t (-6) 5 true = TPanic /\ draw_win t 0 5 true = TPanic /\ draw_win t 5 0 true = TPanic) /\
+     draw_win_unfixed t (-6) 5 true = TPanic /\ draw_win_unfixed t 0 5 true = TPanic /\ draw_win_unfixed t 5 0 true = TPanic) /\
   (exists t t' calls c r, run term_new [HResize 4 3; HFeed true (TPrint [97] 1)] = TOk t /\
-     draw_win t 0 5 true = TOk (t', calls, Some (c, r)) /\
+     draw_win_unfixed t 0 5 true = TOk (t', calls, Some (c, r)) /\
      in_rect [mkWl 24 2 0 5; mkWl 0 0 24 14] (fst (win_cursor [mkWl 24 2 0 5; mkWl 0 0 24 14] c r))
                                                (snd (win_cursor [mkWl 24 2 0 5; mkWl 0 0 24 14] c r)) = false /\
      width t' = 0 /\ print t' [120] 1 = TPanic).
